@@ -685,7 +685,7 @@ static void kernel_line(char *line)
       for (k = 0; k < nout && k < 4; k++) pr_bytes(out[k], outw);
     }
     putchar('\n');
-  } else if (!strcmp(cmd, "idctfst") || !strcmp(cmd, "idctint") || !strcmp(cmd, "fdctint")) {
+  } else if (!strcmp(cmd, "idctfst") || !strcmp(cmd, "idctint") || !strcmp(cmd, "fdctint") || !strcmp(cmd, "idct4x4") || !strcmp(cmd, "idct2x2")) {
     /* idctfst/idctint: 64 coefficients | 64 multipliers (dct_table entries)   fdctint: 64 level-shifted samples */
     int ok, s; short *cf = (short *)B[0], *qt = (short *)B[1]; static short in[64], qq[64]; jpeg_component_info comp; JSAMPROW o[8];
     for (i = 0; i < 64; i++) in[i] = (short)nextnum(&p, &ok);
@@ -698,9 +698,12 @@ static void kernel_line(char *line)
       printf(s ? "S" : " | C");
       if (cmd[0] == 'f') { if (s) jsimd_fdct_islow(cf); else jpeg_fdct_islow(cf); for (i = 0; i < 64; i++) printf(" %d", cf[i]); }
       else {
+        int n = 8;
         if (cmd[4] == 'f') { if (s) jsimd_idct_ifast(&idc, &comp, cf, o, 0); else jpeg_idct_ifast(&idc, &comp, cf, o, 0); }
+        else if (cmd[4] == '4') { n = 4; if (s) jsimd_idct_4x4(&idc, &comp, cf, o, 0); else jpeg_idct_4x4(&idc, &comp, cf, o, 0); }
+        else if (cmd[4] == '2') { n = 2; if (s) jsimd_idct_2x2(&idc, &comp, cf, o, 0); else jpeg_idct_2x2(&idc, &comp, cf, o, 0); }
         else { if (s) jsimd_idct_islow(&idc, &comp, cf, o, 0); else jpeg_idct_islow(&idc, &comp, cf, o, 0); }
-        for (k = 0; k < 8; k++) pr_bytes(o[k], 8);
+        for (k = 0; k < n; k++) pr_bytes(o[k], n);
       }
     }
     putchar('\n');
